@@ -18,6 +18,7 @@ THEOREMS = {
     "C12": ["C12_fault_surfaces", "C12_finalize_any", "C12_retry", "C12_reachable", "C12_drop", "C12_chunking"],
     "C11": ["C11_crash_states", "C11_read_any_header", "C11_crash_prefix", "C11_torn_length_monotone"],
     "C16": ["C16_rings", "C16_vertices", "C16_closed", "C16_orientation", "C16_idempotent", "C16_multipatch"],
+    "C17": ["C17_requests", "C17_index_requests", "C17_record_requests"],
     "C03": ["C03_record", "C03_decodes_conformant"],
     "C09": ["C09_finalize_irrelevant", "C09_files", "C09_finalize_complete", "C09_clean_finalize_silent"],
     "C10": ["C10_reject", "C10_erase"],
@@ -30,7 +31,8 @@ THEOREMS = {
 # theorems whose statement mentions the orientation test (Flocq binary64 arithmetic) inherit the four
 # classical-reals axioms of the standard library through Flocq's definitions
 FLOCQ = set(STDLIB_AXIOMS_ALLOWED)
-AXIOMS = {"C16_rings": FLOCQ, "C16_vertices": FLOCQ, "C16_closed": FLOCQ, "C16_orientation": FLOCQ, "C16_idempotent": FLOCQ,
+AXIOMS = {"C17_requests": FLOCQ, "C17_index_requests": FLOCQ, "C17_record_requests": FLOCQ,
+          "C16_rings": FLOCQ, "C16_vertices": FLOCQ, "C16_closed": FLOCQ, "C16_orientation": FLOCQ, "C16_idempotent": FLOCQ,
           "C16_multipatch": FLOCQ,
           "C11_read_any_header": FLOCQ, "C11_crash_prefix": FLOCQ,
           "C13_truncation": FLOCQ, "C13_truncated_header": FLOCQ, "C13_record_cut": FLOCQ, "C13_fault": FLOCQ,
